@@ -1,6 +1,6 @@
 --------------------------- MODULE AlertPersistMC ---------------------------
 EXTENDS AlertPersist
-MCIds == {"a", "b"}
+MCIds == {"a", "ab"}   \* one ID is a proper prefix of the other (the store is key-ordered)
 MCModesAll == {"node", "svc"}
 MCModesNode == {"node"}
 =============================================================================
